@@ -14,7 +14,15 @@ from cv.core import VERIF, Check  # noqa: E402
 from cayleypy import CayleyGraph, CayleyGraphDef, create_graph, find_path  # noqa: E402
 from cayleypy.algo import MeetInTheMiddle  # noqa: E402
 
-THEOREMS = []
+THEOREMS = [
+    "Cv.Normalize.normalize_congr",
+    "Cv.Normalize.asInt64_id",
+    "Cv.Normalize.normalizeStates_sound",
+    "Cv.Normalize.normalizeCentral_congr",
+    "Cv.Normalize.normalizeGens_congr",
+    "Cv.Normalize.encode_widen",
+    "Cv.Normalize.encodeNarrow_small",
+]
 
 NP = {"np.int8": np.int8, "np.int16": np.int16, "np.int32": np.int32, "np.int64": np.int64, "np.uint8": np.uint8}
 TO = {"torch.uint8": torch.uint8, "torch.int16": torch.int16, "torch.int32": torch.int32, "torch.int64": torch.int64}
@@ -200,6 +208,33 @@ def graphs_under_test(ck):
     return out
 
 
+def check_narrow_model(ck):
+    """The model of the bit-serial encoder run on a NARROW tensor (no widening cast) against torch's real semantics:
+    `StringEncoder.encode` itself does not cast, so calling it with an int8/int16/int32/uint8 tensor reproduces what
+    `encode_states` did before the cast was added.  Ties `Cv.Normalize.encodeNarrow(U)` to torch type promotion."""
+    from cayleypy.string_encoder import StringEncoder
+
+    drv = ck.driver()
+    rng = ck.rng
+    for _ in range(120 if not ck.thorough else 2000):
+        bits, sgn, dt = rng.choice([(8, 1, torch.int8), (16, 1, torch.int16), (32, 1, torch.int32), (8, 0, torch.uint8), (64, 1, torch.int64)])
+        w = rng.choice([1, 2, 3, 5, 7])
+        n = rng.choice([2, 3, 5, 8, 9, 13, 20, 30])
+        hi = min(2**w, 2 ** (bits - sgn))
+        row = [rng.randrange(hi) for _ in range(n)]
+        try:
+            real = StringEncoder(code_width=w, n=n).encode(torch.tensor([row], dtype=dt))[0].tolist()
+        except (RuntimeError, AssertionError, OverflowError):
+            ck.count("narrow:torch-raises")
+            continue
+        m = drv.ask(f"enc.narrow {bits} {sgn} {w} {n} ; {' '.join(map(str, row))}")
+        ck.case(["narrow", bits, sgn, w, n, row], True)
+        ck.count("narrow-encoder-model:" + str(dt).replace("torch.", ""))
+        if m != " ".join(str(v & ((1 << 64) - 1)) for v in real):
+            ck.correspondence_break("encodeNarrow (model of the un-widened encoder) differs from torch", {"bits": bits, "signed": sgn, "w": w, "n": n, "row": row, "model": m[:200], "torch": real})
+            return
+
+
 def main():
     ck = Check("C13")
     if ck.replay:
@@ -209,6 +244,7 @@ def main():
         run_graph(ck, gd, c.get("cfg", {}), "replay")
         ck.finish(rule="replay: the whole cell product on the recorded graph")
     ck.lean_obligations("CvProps.C13", THEOREMS)
+    check_narrow_model(ck)
     for gd, cfg, label in graphs_under_test(ck):
         if ck.enough():
             break
